@@ -85,8 +85,8 @@ func (s *mockStream) CancelWrite(code quic.StreamErrorCode) {
 	s.ctxCancel()
 }
 func (s *mockStream) Context() context.Context         { return s.ctx }
-func (s *mockStream) SetWriteDeadline(time.Time) error { return nil }
-func (s *mockStream) SetDeadline(time.Time) error      { return nil }
+func (s *mockStream) SetWriteDeadline(t time.Time) error { s.out.setWriteDeadline(t); return nil }
+func (s *mockStream) SetDeadline(t time.Time) error      { s.out.setWriteDeadline(t); return nil }
 
 // http3.Stream additions
 func (s *mockStream) SendDatagram([]byte) error { return errors.New("datagrams not supported by mock") }
@@ -313,6 +313,38 @@ func (c *WTClient) SendFrameRaw(b []byte) error {
 func (c *WTClient) SendPacket(p Pkt) error {
 	fr := encPacketFrame(c.O.Rev, c.O.B64, p)
 	return c.SendFrameRaw(wtEncode(fr.Binary, fr.Data))
+}
+
+// StopReading: the client stops reading its stream (flow control then blocks the server's writes).
+func (c *WTClient) StopReading() {
+	if c.Bidi != nil {
+		c.Bidi.out.Stall()
+	}
+}
+
+// FailServerWrites: the client stops the receiving side of its stream (STOP_SENDING): the server's next
+// write fails while its reads of the stream are not affected.
+func (c *WTClient) FailServerWrites() {
+	if c.Bidi != nil {
+		c.Bidi.out.FailNextWrite(&quic.StreamError{StreamID: c.Bidi.id, ErrorCode: 0x10, Remote: true})
+	}
+}
+
+// NetworkGivesUp: the QUIC connection of a vanished peer times out: every stream fails, the connection's
+// context ends.
+func (c *WTClient) NetworkGivesUp() {
+	idle := &quic.IdleTimeoutError{}
+	for _, st := range []*mockStream{c.ReqStr, c.Bidi} {
+		if st != nil {
+			st.in.Fail(idle, idle)
+			st.out.Fail(idle, idle)
+			st.ctxCancel()
+		}
+	}
+	if c.Conn != nil {
+		c.Conn.cancel()
+	}
+	c.Ex.cancel()
 }
 
 // Drop emulates the client vanishing: request stream and bidi stream end.
